@@ -254,3 +254,4 @@ def run(ctx: Context) -> None:
     ctx.isolate(r5_rewards)
     ctx.isolate(r6_running_occupancy)
     ctx.isolate(c10.r5c_compat_on_cleared_worker, rule="C14.R7")
+    ctx.isolate(c12.r1_admission, _alias={"C12.R1": "C14.R8"})
